@@ -2,17 +2,24 @@
 
 PROPS = {
     "C18": {
-        "lean_modules": ["Posmint.Props.C18"],
-        "namespaces": ["Posmint.Props.C18"],
-        "required_theorems": [],
+        "lean_modules": ["Posmint.Props.C18", "Posmint.Props.C18Coins"],
+        "namespaces": ["Posmint.Props.C18", "Posmint.Props.C18Coins"],
+        "required_theorems": ["Posmint.Props.C18." + t for t in ("intMul_exact", "chopRound_spec", "decMul_spec", "decCeil_spec")] +
+                             ["Posmint.Props.C18Coins." + t for t in ("isValid_canon", "amountOf_spec", "safeAdd_spec", "safeAdd_none_iff", "add_canon",
+                              "safeSub_spec", "sub_spec", "add_sub_inverse", "sub_add_inverse", "isAllGTE_spec", "isAllGT_spec", "isAnyGT_spec",
+                              "isAnyGTE_spec", "denomsSubsetOf_spec", "isEqual_partial", "isEqual_sound", "newCoins_spec", "newCoins_of_valid")],
         "t1": [
             {"family": "arith", "model": "arith", "stateless": True, "quick_n": 60000, "thorough_n": 4000000},
         ],
         "rule": "operations drawn from a boundary-biased generator (0, +-1, 2^k+-d, 10^k+-d, k*10^18+5*10^17+-1, "
-                "bound-d, random bit lengths); a case is non-trivial when it is a distinct (operation, operands, "
-                "outcome) triple; classes = operation x outcome kind",
+                "bound-d, random bit lengths, products whose bit lengths add up to the limit in every sign combination); a quarter of the "
+                "operations are Coins operations (IsValid, NewCoins, Add, Sub, SafeSub, AmountOf, the seven comparisons, IsZero, IsEqual) on "
+                "canonical sets over eight denominations with amounts up to 2^255-1, on pairs derived from each other (amounts one unit either "
+                "side, denominations dropped / added) and on non-canonical lists (unsorted, duplicates, zero / negative amounts, malformed "
+                "denominations); a case is non-trivial when it is a distinct (operation, operands, outcome) triple; classes = operation x outcome kind",
         "assumptions": ["operands are valid values of their types (|Int| < 2^255, 0 <= Uint < 2^256)",
-                        "*big.Int operand aliasing is checked by the harness re-reading operands after each call, not in Lean"],
+                        "*big.Int operand aliasing and 'valid coin operands are never mutated' are checked by the harness re-reading operands after each call, not in Lean",
+                        "DecCoins (types/dec_coin.go) is not modelled; denominations are ASCII (Go compares bytes, Lean code points)"],
         "trusted": ["math/big (the harness oracle computes exact rationals with it, independently of posmint)"],
     },
 }
@@ -325,9 +332,15 @@ MANIFEST_TEXT = {
         "text": "Lean theorems: Int/Uint Add/Sub/Mul equal exact arithmetic or panic exactly when out of range (incl. Mul's "
                 "pre-check being neither too strict nor too lax); chopPrecisionAndRound is the unique half-to-even rounding for "
                 "all signs, Truncate is toward zero, RoundUp/Ceil are ceilings; Dec.Mul/RoundInt/TruncateInt specs with range panics. "
-                "Model tied to types/*.go by a differential run on boundary-biased operands and an independent math/big oracle.",
+                "Coins: IsValid implies the canonical form (sorted, no duplicates, positive); AmountOf's binary search is the per-denomination "
+                "amount; Add / SafeSub / Sub are per-denomination sums and differences on the canonical form, panic exactly on Int overflow / a "
+                "negative result, SafeSub reports exactly when an amount would go negative, Add and Sub are inverse both ways; the seven "
+                "comparisons and DenomsSubsetOf are characterised per denomination; NewCoins returns a canonical permutation of the non-zero "
+                "coins; IsEqual is sound (its panic on different denominations is a recorded finding with a proved counterexample). "
+                "Model tied to types/*.go by a differential run on boundary-biased operands and independent math/big oracles; operand mutation "
+                "is checked on the implementation.",
         "note": "Lean kernel + 3 standard axioms; model hand-written (types/int.go, uint.go, decimal.go) and tied by T1; "
-                "constants maxBitLen/Precision/DecimalPrecisionBits regenerated from source; Dec.Quo/QuoRoundUp double rounding is a recorded known finding",
+                "constants maxBitLen/Precision/DecimalPrecisionBits regenerated from source; Dec.Quo/QuoRoundUp double rounding and Coins.IsEqual's panic are recorded known findings; DecCoins not modelled",
         "technique": "Lean 4 proof over executable model + differential correspondence",
     },
 }
